@@ -420,7 +420,14 @@ type TypeContract struct {
 	Src        string
 }
 
+type GlobalInv struct {
+	Pkg    string
+	Global string
+	Clause *Clause
+}
+
 type Contracts struct {
+	Globals []*GlobalInv
 	Funcs  map[string]*FuncContract
 	Specs  map[string]*SpecFunc
 	Axioms []*Axiom
@@ -451,7 +458,7 @@ func (cs *Contracts) ParseContractFile(path string, pkgName string, isSpec bool)
 		line int
 	}
 	var lines []lline
-	heads := []string{"func ", "type ", "spec ", "axiom ", "lemma ", "props ", "arith ", "requires", "ensures", "assigns", "loop ", "pure", "trusted", "noinline", "fresh ", "note ", "assert", "invariant ", "guarded_by ", "immutable", "decreases ", "ghost "}
+	heads := []string{"func ", "type ", "spec ", "axiom ", "lemma ", "global ", "props ", "arith ", "requires", "ensures", "assigns", "loop ", "pure", "trusted", "noinline", "fresh ", "note ", "assert", "invariant ", "guarded_by ", "immutable", "decreases ", "ghost "}
 	for i, raw := range strings.Split(string(data), "\n") {
 		s := strings.TrimSpace(raw)
 		if !strings.HasPrefix(s, "//@") {
@@ -553,6 +560,22 @@ func (cs *Contracts) ParseContractFile(path string, pkgName string, isSpec bool)
 				sf.Body = e
 			}
 			cs.Specs[sf.Name] = sf
+		case strings.HasPrefix(s, "global "):
+			// global <name> invariant[Cxx] label: expr
+			f := strings.Fields(s)
+			if len(f) < 4 || !strings.HasPrefix(f[2], "invariant") {
+				cs.Errors = append(cs.Errors, src+": bad global clause")
+				continue
+			}
+			tag := ""
+			if i := strings.Index(f[2], "["); i > 0 {
+				tag = f[2][i:]
+			}
+			rest := strings.TrimSpace(strings.SplitN(s, f[2], 2)[1])
+			if c := mkClause("globalinv", tag, rest, src); c != nil {
+				cs.Globals = append(cs.Globals, &GlobalInv{Pkg: pkgName, Global: f[1], Clause: c})
+			}
+			curF, curT = nil, nil
 		case strings.HasPrefix(s, "axiom ") || strings.HasPrefix(s, "lemma "):
 			rest := strings.TrimSpace(s[6:])
 			name := ""
@@ -612,6 +635,8 @@ func (cs *Contracts) ParseContractFile(path string, pkgName string, isSpec bool)
 					curF.Assigns = append(curF.Assigns, a)
 				}
 			}
+		case strings.HasPrefix(s, "ghost "):
+			// documentation only: ghost components are created on first use
 		case strings.HasPrefix(s, "decreases "):
 			curF.Decreases = mkClause("decreases", "", strings.TrimSpace(s[10:]), src)
 		case strings.HasPrefix(s, "loop "):
@@ -631,9 +656,14 @@ func (cs *Contracts) ParseContractFile(path string, pkgName string, isSpec bool)
 				curF.Loops[n] = lc
 			}
 			rest := strings.TrimSpace(strings.SplitN(s, f[2], 2)[1])
-			switch f[2] {
+			kind := f[2]
+			tag := ""
+			if i := strings.Index(kind, "["); i > 0 {
+				tag = kind[i:]
+				kind = kind[:i]
+			}
+			switch kind {
 			case "invariant":
-				tag := ""
 				if strings.HasPrefix(rest, "[") {
 					i := strings.Index(rest, "]")
 					tag, rest = rest[:i+1], strings.TrimSpace(rest[i+1:])
